@@ -4,7 +4,7 @@
 //!   {"case","app","codec","init_view",[steps]}  step = {"in","tin","tout","bout","tview","bview","snap"}
 //! (the observation type `ocall` of coq/Bridge/Twin.v).  All randomness derives from the seed.
 //!
-//! usage: bridge_twin <seed> <histories> [max_steps]
+//! usage: bridge_twin <seed> <histories> [max_steps] [min_steps]
 #[path = "bridge_common/mod.rs"]
 mod common;
 use common::*;
@@ -39,23 +39,26 @@ struct Sys<'a> {
     owner: HashMap<u32, usize>,    // latest arrival number issued under id
     steps: Vec<Value>,
     dead: bool,
+    sys: usize,
+    tok0: i64,
 }
 
-fn run_history<A: TwinApp>(rng: &mut Rng, case: usize, max_steps: u64) -> Vec<Value>
+fn run_history<A: TwinApp>(rng: &mut Rng, case: usize, max_steps: u64, min_steps: u64) -> Vec<Value>
 where A::Capabilities: crux_core::WithContext<Event, A::Effect>,
       <A::Effect as crux_core::Effect>::Ffi: DeserializeOwned {
     let typed: Core<A> = Core::new();
     let bin = BinFace::<A>(Bridge::new(Core::new()));
     let js = JsonFace::<A>(BridgeWithSerializer::new(Core::new()));
     let mut sys = vec![
-        Sys { codec: Codec::Bincode, face: &bin, issued: vec![], owner: HashMap::new(), steps: vec![], dead: false },
-        Sys { codec: Codec::Json, face: &js, issued: vec![], owner: HashMap::new(), steps: vec![], dead: false },
+        Sys { codec: Codec::Bincode, face: &bin, issued: vec![], owner: HashMap::new(), steps: vec![], dead: false, sys: 1, tok0: tokens_live(1) },
+        Sys { codec: Codec::Json, face: &js, issued: vec![], owner: HashMap::new(), steps: vec![], dead: false, sys: 2, tok0: tokens_live(2) },
     ];
     let mut held: Vec<Option<Held>> = vec![];       // typed shell: request with arrival number k
     let mut variants: Vec<u64> = vec![];            // variant of request k
     let mut answered: Vec<u32> = vec![];            // how many responses were sent to request k
     let init_view = typed.view().flat();
-    let nsteps = rng.range(4, max_steps);
+    let ttok0 = tokens_live(0);
+    let nsteps = rng.range(min_steps.min(max_steps), max_steps);
     let mut n_events = 0u64;
 
     for step in 0..nsteps {
@@ -81,12 +84,14 @@ where A::Capabilities: crux_core::WithContext<Event, A::Effect>,
             Plan::Ev(script) => {
                 let ev = Event::Run(script);
                 let ev_id = n_events; n_events += 1;
+                enter_sys(0);
                 let effs = typed.process_event(ev.clone());
                 let tout = note_effects::<A>(effs, &mut held, &mut variants, &mut answered);
                 let tview = typed.view().flat();
                 for s in sys.iter_mut() {
+                    enter_sys(s.sys);
                     let out = guarded(|| s.face.event(&enc(s.codec, &ev)));
-                    record::<A>(s, json!(["ev", 1, ev_id]), json!(["ev", ev_id]), tout.clone(), out, &tview);
+                    record::<A>(s, json!(["ev", 1, ev_id]), json!(["ev", ev_id]), tout.clone(), out, &tview, (typed.verif_executor_tasks(), tokens_live(0) - ttok0));
                 }
             }
             Plan::BadEv => {
@@ -97,18 +102,19 @@ where A::Capabilities: crux_core::WithContext<Event, A::Effect>,
                         Codec::Bincode => match rng.below(3) { 0 => vec![9, 0, 0, 0], 1 => vec![], _ => vec![0, 0, 0, 0, 1, 0, 0, 0, 0, 0, 0, 0, 77, 0, 0, 0] },
                         Codec::Json => match rng.below(3) { 0 => b"\"Nopes\"".to_vec(), 1 => b"".to_vec(), _ => b"{\"Run\":[{\"Bogus\":1}]}".to_vec() },
                     };
+                    enter_sys(s.sys);
                     let out = guarded(|| s.face.event(&bytes));
-                    record::<A>(s, json!(["ev", 0, ev_id]), Value::Null, json!(["unit"]), out, &tview);
+                    record::<A>(s, json!(["ev", 0, ev_id]), Value::Null, json!(["unit"]), out, &tview, (typed.verif_executor_tasks(), tokens_live(0) - ttok0));
                 }
             }
             Plan::Resp(k, v) => {
                 // the id this request was issued under (by the bincode bridge; the json bridge is addressed
                 // with its own id for the same request)
                 let ids: Vec<u32> = sys.iter().map(|s| s.issued.get(k).copied().unwrap_or(u32::MAX - 7)).collect();
-                respond::<A>(rng, &typed, &mut sys, &mut held, &mut variants, &mut answered, ids, v);
+                respond::<A>(rng, &typed, &mut sys, &mut held, &mut variants, &mut answered, ids, v, ttok0);
             }
             Plan::Raw(id, v) => {
-                respond::<A>(rng, &typed, &mut sys, &mut held, &mut variants, &mut answered, vec![id, id], v);
+                respond::<A>(rng, &typed, &mut sys, &mut held, &mut variants, &mut answered, vec![id, id], v, ttok0);
             }
         }
     }
@@ -131,7 +137,7 @@ fn note_effects<A: TwinApp>(effs: Vec<A::Effect>, held: &mut Vec<Option<Held>>, 
 
 /// one handle_response step on every system, mirrored on the typed shell
 fn respond<A: TwinApp>(rng: &mut Rng, typed: &Core<A>, sys: &mut Vec<Sys>, held: &mut Vec<Option<Held>>,
-                       variants: &mut Vec<u64>, answered: &mut Vec<u32>, ids: Vec<u32>, v: Option<u64>)
+                       variants: &mut Vec<u64>, answered: &mut Vec<u32>, ids: Vec<u32>, v: Option<u64>, ttok0: i64)
 where <A::Effect as crux_core::Effect>::Ffi: DeserializeOwned {
     // who is registered under the id right now, according to the implementation's own registry
     let id0 = ids[0];
@@ -154,6 +160,7 @@ where <A::Effect as crux_core::Effect>::Ffi: DeserializeOwned {
         bodies = sys.iter().map(|s| body(s.codec, var, None, rng)).collect();
     }
     // mirror on the typed shell
+    enter_sys(0);
     let (tin, tout) = match (target, entry) {
         (Some(k), Some(kind)) if held[k].is_some() => {
             answered[k] += 1;
@@ -175,14 +182,15 @@ where <A::Effect as crux_core::Effect>::Ffi: DeserializeOwned {
     };
     let tview = typed.view().flat();
     for (n, s) in sys.iter_mut().enumerate() {
+        enter_sys(s.sys);
         let out = guarded(|| s.face.response(ids[n], &bodies[n]));
         let vj = match val { Some(v) => json!(v), None => json!(-1) };
-        record::<A>(s, json!(["resp", ids[n], vj]), tin.clone(), tout.clone(), out, &tview);
+        record::<A>(s, json!(["resp", ids[n], vj]), tin.clone(), tout.clone(), out, &tview, (typed.verif_executor_tasks(), tokens_live(0) - ttok0));
     }
 }
 
 /// decode what the bridge returned, update the id bookkeeping, append the observation
-fn record<A: TwinApp>(s: &mut Sys, inp: Value, tin: Value, tout: Value, out: BOut, tview: &[u64])
+fn record<A: TwinApp>(s: &mut Sys, inp: Value, tin: Value, tout: Value, out: BOut, tview: &[u64], typed_live: (usize, i64))
 where <A::Effect as crux_core::Effect>::Ffi: DeserializeOwned {
     let bout = match out {
         BOut::Ok(bytes) => match dec::<Vec<BridgeRequest<<A::Effect as crux_core::Effect>::Ffi>>>(s.codec, &bytes) {
@@ -210,7 +218,9 @@ where <A::Effect as crux_core::Effect>::Ffi: DeserializeOwned {
         Ok(v) => v.into_iter().map(|(i, k)| json!([i, k])).collect(),
         Err(_) => vec![json!(["panic"])],
     };
-    s.steps.push(json!({"in": inp, "tin": tin, "tout": tout, "bout": bout, "tview": tview, "bview": bview, "snap": snap}));
+    let exec = catch_unwind(AssertUnwindSafe(|| s.face.exec() as i64)).unwrap_or(-1);
+    s.steps.push(json!({"in": inp, "tin": tin, "tout": tout, "bout": bout, "tview": tview, "bview": bview, "snap": snap,
+                        "exec": exec, "tok": tokens_live(s.sys) - s.tok0, "texec": typed_live.0, "ttok": typed_live.1}));
 }
 
 fn main() {
@@ -218,13 +228,14 @@ fn main() {
     let seed: u64 = args.get(1).and_then(|s| s.parse().ok()).unwrap_or(1);
     let count: usize = args.get(2).and_then(|s| s.parse().ok()).unwrap_or(10);
     let max_steps: u64 = args.get(3).and_then(|s| s.parse().ok()).unwrap_or(40);
+    let min_steps: u64 = args.get(4).and_then(|s| s.parse().ok()).unwrap_or(4);
     if std::env::var("VERIF_PANIC_TRACE").is_err() { std::panic::set_hook(Box::new(|_| {})); }
     let mut rng = Rng::new(seed);
     for case in 0..count {
         let mut r = Rng(rng.next());
         let lines = catch_unwind(AssertUnwindSafe(|| {
-            if case % 2 == 0 { run_history::<new_app::NewApp>(&mut r, case, max_steps) }
-            else { run_history::<old_app::OldApp>(&mut r, case, max_steps) }
+            if case % 2 == 0 { run_history::<new_app::NewApp>(&mut r, case, max_steps, min_steps) }
+            else { run_history::<old_app::OldApp>(&mut r, case, max_steps, min_steps) }
         }));
         match lines {
             Ok(lines) => for l in lines { println!("{}", l); },
